@@ -161,7 +161,23 @@ fn triple_case(g: &mut Gen, cfg: &PicCfg) -> Verdict {
             }
         }
         before = last_digest(&a);
-        let mut r = H263Reader::from_source(&fbytes[..]);
+        // a quarter of the time the caller has used the reader itself before the decode call (a
+        // container's tag bytes read with read_u8 / skipped with skip_bits, nothing committed): the
+        // failed call must put the reader back where the *call* found it
+        let prefix: Vec<u8> = if g.chance(1, 4) { (0..g.range(1, 4)).map(|_| g.byte() | 1).collect() } else { Vec::new() };
+        let mut data = prefix.clone();
+        data.extend_from_slice(&fbytes);
+        let mut r = H263Reader::from_source(&data[..]);
+        if !prefix.is_empty() {
+            labels.push("caller consumed bytes from the reader before the failing call");
+            let first: Result<u8, _> = r.read_u8();
+            if first.ok() != Some(prefix[0]) {
+                return Verdict::fail("read_u8 before the decode call did not deliver the first byte");
+            }
+            if prefix.len() > 1 && r.skip_bits(8 * (prefix.len() as u32 - 1)).is_err() {
+                return Verdict::fail("skip_bits before the decode call failed");
+            }
+        }
         match decode_call(&mut a, &mut r) {
             Outcome::Err(_) => {}
             Outcome::Ok => return Verdict::Excluded("failing input was accepted (judged by C04, not here)"),
@@ -171,8 +187,9 @@ fn triple_case(g: &mut Gen, cfg: &PicCfg) -> Verdict {
         let want = bytes_to_bits(&fbytes);
         if rest != want {
             return Verdict::fail(format!(
-                "after the failed call ({}) the reader does not re-deliver its bits from the start: {} bits remain, {} expected",
+                "after the failed call ({}{}) the reader does not re-deliver its bits from where the call started: {} bits remain, {} expected",
                 flabel,
+                if prefix.is_empty() { String::new() } else { format!(", {} bytes consumed by the caller before it", prefix.len()) },
                 rest.len(),
                 want.len()
             ));
